@@ -1,6 +1,7 @@
 """C07 Activeness and imputation follow one contract on every path - structural clauses."""
 import ast
 
+from ..rules.match import FnText
 from ..model import AnalysisError, norm
 from ..astutil import short, call_name
 from ..report import fkey
@@ -20,14 +21,17 @@ EXPLANATION = (
 
 def producers(ctx, rule='A5'):
     fn = ctx.fn(f'{GP}.get_all_discrete_x')
-    src = [norm(s) for s in fn.body]
-    txt = ' '.join(src)
-    i_act = txt.find('is_active = x != X_INACTIVE_VALUE')
-    i_imp = txt.find('_get_inactive_value(dv)')
+    txt = FnText(ctx, fn)
+    from ..rules.match import Matcher
+    m_ = Matcher(fn, ctx.prog)
+    acts = m_.find('is_active = x != X_INACTIVE_VALUE')
+    imps = m_.find('x[x[:, i_dv] == X_INACTIVE_VALUE, i_dv] = inactive_value')
+    i_act = acts[0].lineno if acts else -1
+    i_imp = imps[0].lineno if imps else -1
     ok = 0 <= i_act < i_imp
     ctx.ob(rule, fkey(fn, rule, 'enumeration-activeness-before-imputation'), ok, fn.where,
            'the enumeration derives activeness from the -1 marks (`x != X_INACTIVE_VALUE`) before it replaces '
-           'them by the canonical inactive values', f'activeness at offset {i_act}, imputation at {i_imp}')
+           'them by the canonical inactive values', f'activeness at line {i_act}, imputation at line {i_imp}')
     ok = 'x[x[:, i_dv] == X_INACTIVE_VALUE, i_dv] = inactive_value' in txt and \
         'inactive_value = self._get_inactive_value(dv)' in txt
     ctx.ob(rule, fkey(fn, rule, 'enumeration-imputes-canonical'), ok, fn.where,
@@ -69,13 +73,13 @@ def conditional_flags(ctx, rule='A5f'):
            'the conditionally-active flag computed by the connection encoder is forwarded to the declared '
            'variable', short(cs[0], 120) if cs else 'missing')
     f3 = ctx.fn(f'{ENC}:EagerEncoder.get_design_variables')
-    t = ' '.join(norm(s) for s in f3.body)
+    t = FnText(ctx, f3)
     ok = 'is_cond_act = np.any(des_vectors == X_INACTIVE_VALUE, axis=0)' in t and \
         'conditionally_active=is_cond_act[i_dv]' in t
     ctx.ob(rule, fkey(f3, rule, 'eager-flag-from-marks'), ok, f3.where,
            'an eagerly encoded variable is conditionally active iff some stored design vector marks it -1', '')
     f4 = ctx.fn(f'{ENC}:EagerEncoder.merge_design_vars')
-    t = ' '.join(norm(s) for s in f4.body)
+    t = FnText(ctx, f4)
     ok = 'is_cond_act = np.ones(n_opts.shape, dtype=bool)' in t and 'np.any(is_cond_act, axis=0)' in t
     ctx.ob(rule, fkey(f4, rule, 'merge-flag-any'), ok, f4.where,
            'merging existence patterns: a variable missing in some pattern, or conditional in any, is '
@@ -119,4 +123,7 @@ VARIANTS = [
     V('eager-flag-all-marks', 'optimization/assign_enc/encoding.py',
       [("            is_cond_act = np.any(des_vectors == X_INACTIVE_VALUE, axis=0)\n", "            is_cond_act = np.all(des_vectors == X_INACTIVE_VALUE, axis=0)\n")],
       key='eager-flag-from-marks'),
+    V('twin-rename-loop-var-in-enumeration', 'optimization/graph_processor.py',
+      [("        for i_dv, dv in enumerate(self.all_des_vars):\n            inactive_value = self._get_inactive_value(dv)\n            x[x[:, i_dv] == X_INACTIVE_VALUE, i_dv] = inactive_value",
+        "        for col, des_var in enumerate(self.all_des_vars):\n            fill = self._get_inactive_value(des_var)\n            x[x[:, col] == X_INACTIVE_VALUE, col] = fill")], expect='silent'),
 ]
